@@ -358,3 +358,16 @@ def close(a, b, rel=1e-9, abs_=1e-12):
 
 
 __all__ += ["close"]
+
+
+def div(a, b):
+    """total division for clauses (concrete world: nan when the divisor is zero, so that a guarded clause can be evaluated eagerly)"""
+    a, b = _r(a), _r(b)
+    if isinstance(a, Sym) or isinstance(b, Sym):
+        return _r(binop("/", a, b, spec=True))
+    if b == 0:
+        return float("nan")
+    return a / b
+
+
+__all__ += ["div"]
